@@ -173,6 +173,9 @@ WIDE_D = 0.02            # pixel; 1% of the smallest full size in the catalogue 
 VARIANTS = [['operator', 'inherit'], ['method', 'inherit'], ['ctor', 'inherit'], ['ctor', False], ['ctor', True], ['ctor', 'empty']]
 OPERAND_INCS = ['absent', False]
 WCSS = [[proj, rot] for proj in ('TAN', 'SIN') for rot in (0.0, 30.0, 137.0)]
+# latitude on the first world axis (CTYPE1 = DEC--TAN): the 7th WCS, used for one configuration in three of the quick tier
+WCSS_LATFIRST = len(WCSS)
+WCSS.append(['TAN', 30.0, 'latfirst'])
 ROTS = [[pv, _deg(a)] for pv in ([50.0, 50.0], [0.0, 0.0]) for a in (30.0, 90.0, -123.4)]
 CMETA = {'text': 'cmp'}
 CVISUAL = {'color': 'orange'}
@@ -333,8 +336,8 @@ class Model:
     def wcs(self, k):
         if k not in self._wcs:
             from mc.pool import wcs_simple
-            proj, rot = WCSS[k]
-            self._wcs[k] = wcs_simple(rot_deg=rot, cdelt=1e-3, proj=proj)
+            proj, rot = WCSS[k][:2]
+            self._wcs[k] = wcs_simple(rot_deg=rot, cdelt=1e-3, proj=proj, lat_first=len(WCSS[k]) > 2)
         return self._wcs[k]
 
     def sky(self, k):
@@ -669,7 +672,7 @@ def check_conversions(cx, bt, M, want, wide, wcs_ids, lc, reverse=True):
     res = cx.res
     for k in wcs_ids:
         w = M.wcs(k)
-        res.axis('wcs', f'{WCSS[k][0]} rot {WCSS[k][1]}')
+        res.axis('wcs', f'{WCSS[k][0]} rot {WCSS[k][1]}' + (' latitude-first' if len(WCSS[k]) > 2 else ''))
         ok, csky = _call(cx, 'to_sky', lambda: bt.reg.to_sky(w), check='to_sky', wcs=k)
         res.transitions += 1
 
@@ -1191,7 +1194,7 @@ def check_sky_annulus(res, c):
     import regions as R
     from regions import PixCoord
     from mc.pool import wcs_simple
-    proj, rot = WCSS[c['wcs']]
+    proj, rot = WCSS[c['wcs']][:2]
     scale = 1e-3
     w = wcs_simple(rot_deg=rot, cdelt=scale, proj=proj)
     case = dict(c)
@@ -1319,7 +1322,7 @@ def run_shard(shard, tier, seed):
                 # one WCS per configuration (the two of the seed alternate with the configuration index); the reverse
                 # direction for the operator and constructor+include=False constructions; membership after rotation for
                 # 2 of the 6 rotations (the structure is compared for all 6)
-                check_pair_config(res, e, [ids[k % 2]], list(range(len(ROTS))), holder,
+                check_pair_config(res, e, [ids[k % 2] if k % 3 else WCSS_LATFIRST], list(range(len(ROTS))), holder,
                                   reverse=[e['form'], e['inc']] in (VARIANTS[0], VARIANTS[3]), rot_membership=(1, 5))
             else:
                 check_pair_config(res, e, ids, list(range(len(ROTS))), holder)
